@@ -194,7 +194,7 @@ the `Print Assumptions` summary.
 | C03 | CAR in the Fock semantics; checker soundness; `C03_normal_ordered_term_sound` / `C03_normal_ordered_sound`: the model of fermionic normal ordering (double loop, recursive contraction, fuel) with exact accumulation preserves the denotation of every word of any length and of every operator; `C03_normal_ordered_is_ordered` (insertion-sort invariant: every returned term is in normal order, with the code's tolerance), `C03_normal_ordered_word_fixed`, `C03_normal_ordering_idempotent_on_terms` | normal-ordering model sound / ordered / idempotent for all words <= 4 (fermion 3 modes; boson, quad hbar 2 and 1/2) | all three algebras, InteractionOperator, chemist_ordered, reorder, canonicity pairs | - |
 | C04 | JW ladder / operator soundness; `C04_majorana_jw_sound` (every MajoranaOperator: gamma_2q = a_q + a+_q, gamma_2q+1 = i(a+_q - a_q)); checker soundness | - | every fast path (InteractionOperator, DCH, one_body/two_body on all index tuples < 4, reverse JW); dual-basis jellium / plane-wave helpers on cubic, rectangular and sheared cells (tolerance 1e-9 inside Coq) | - |
 | C05 | `C05_bk_ladder_linear` (every n, mode, state, given decidable mask identities); `C05_bk_sound_upto_128` (every operator and state, n <= 128), encoding injective; `C05_bkt_sound_upto_40` (tree variant) | encoding validity for every n_qubits <= 7 (BK and BK-tree); Fenwick set identities n_qubits <= 128 | index sets (n <= 48/128), images, operators, encoding property on outputs, SRL all (i,j) n <= 16/40, InteractionOperator path | - |
-| C06 | product = composition (basis of MatrixOf); `C06_linear_operator_term_correct` (the vector-splitting algorithm of LinearQubitOperator, modelled on perfect binary trees, realises the Pauli semantics for every n, canonical term, vector), `C06_linear_operator_is_sum_of_terms` | - | every matrix entry of sparse operators vs MatrixOf / Bargmann; matvec (also against the model `lqo`), parallel matvec (forced orders), diagonal, expectation, variance | quad matrices, eigenspectrum traces, ARPACK wrappers (get_ground_state, get_gap), density matrix, inner product |
+| C06 | product = composition (basis of MatrixOf); `C06_linear_operator_term_correct` (the vector-splitting algorithm of LinearQubitOperator, modelled on perfect binary trees, realises the Pauli semantics for every n, canonical term, vector), `C06_linear_operator_semantics` (whole operators: output amplitudes = coefficients of op applied to the vector) | - | every matrix entry of sparse operators vs MatrixOf / Bargmann; matvec (also against the model `lqo`), parallel matvec (forced orders), diagonal, expectation, variance | quad matrices, eigenspectrum traces, ARPACK wrappers (get_ground_state, get_gap), density matrix, inner product |
 | C07 | adjoint theorem; commutator-checker soundness | - | hermitian_conjugated, (anti)commutator, double commutator + hopping shortcut, all dual-basis pairs / triples, DC commutator, trotter_error predicates, bch_expand against an exact BCH series (nilpotent exp/log inside Coq) | - |
 | C08 | checker soundness | - | tensor arithmetic, all conversions and round trips, boson<->quad, rotate_basis = substitution, DOCI | rotation spectra |
 | C09 | GF(2) evaluation homomorphism, canonical form sound; `C09_parity_code_roundtrip`, `C09_jw_code_roundtrip` (every n) | - | BinaryPolynomial expressions, code validity on whole domains, binary_code_transform, JW/BK reproduction | - |
@@ -230,6 +230,9 @@ LIMITS = r'''
   of being re-modelled one by one.  This gives per-input kernel-grade evidence and does not alarm on
   harmless refactoring, but it is not an unbounded theorem about that code; the bounded / unbounded
   theorems that exist are listed in section 3.
+* **Done beyond the first plan:** unbounded theorems for the normal-ordering model (denotation, orderedness, fixed points),
+  the Majorana Jordan-Wigner path, the LinearQubitOperator algorithm, the sector verdict of the tapering checker, the
+  swap network, the alias tables, `pair_between`, the grouping loop, `jw_number_indices`, the parity / JW codes.
 * **Not done (planned as P2/P3):** `pauli_faithful` (completeness of the normal form), a symbolic proof
   of the Fenwick identities for all n (the linear-encoding theorem is proved; its side conditions are
   computed for n <= 128, tree variant n <= 40), an unbounded proof for `pair_within`
@@ -280,7 +283,7 @@ LIMITS = r'''
   axioms of every loaded library file, i.e. additionally `ClassicalDedekindReals.sig_not_dec` and
   `Classical_Prop.classic` from the loaded `Reals` library; they are not used by the theorem.  No `Admitted` / `admit`; no guard, positivity or
   universe switches.  Libraries used: Coq standard library only (`QArith`, `Qcanon`, `ZArith`, `NArith`,
-  `List`, `Bool`, `Lia`, `Ring`, `String`, `Sorted`, `Permutation`, `ZifyBool`/`ZifyNat`).
+  `List`, `Bool`, `Lia`, `Ring`, `String`, `Sorted`, `Permutation`, `FinFun`, `ZifyBool`/`ZifyNat`; `Reals` in one file).
 * `harness/vf/gen.py`: the `ast` translator for literal tables and for pure integer functions (it
   identifies Python's unbounded `int` `+ - * %` with `Z.add`, `Z.sub`, `Z.mul`, `Z.modulo`, and a Python
   truth test of a flag parameter with a Coq `bool`).
@@ -293,7 +296,9 @@ LIMITS = r'''
   base-class `_simplify`, Majorana merge / sort, `jordan_wigner` (fermion path), normal ordering (three
   algebras), `hermitian_conjugated`, `isclose` and predicates, BK index sets / ladder images / Fenwick
   tree, Hubbard neighbour functions, Givens schedules, swap network, alias-table construction,
-  save/load state machine, the last step of `taper_off_qubits`.
+  save/load state machine, the last step of `taper_off_qubits`, `jordan_wigner` (Majorana path), `LinearQubitOperator._matvec`
+  (on perfect binary trees), `jw_number_indices`, `pair_between`, the grouping loop of
+  `group_into_tensor_product_basis_sets`, the parity / Jordan-Wigner binary codes, `SymbolicOperator.accumulate`.
 * libm `cos` / `sin` / `exp` in the harness when angles returned by the implementation are turned into
   matrix entries (C11, C16); a rational enclosure of pi (C19).
 '''
